@@ -56,6 +56,11 @@ def oracle(ctx, seeds=None):
             s2.solve(other, cfl, stop={'maxit': 2})
             out['repeat_same_obj'] = s2.solve(f0, cfl, stop={'maxit': N + M})[-1]
             out['fresh'] = mk().solve(f0, cfl, stop={'maxit': N + M})[-1]
+            # a freshly built discretisation that has first served a run with ANOTHER CFL number (and other data)
+            mod7, msh7, disc7, f7 = cfg1d.build(cfg)
+            s7 = getattr(impl.integ, name)(msh7, disc7)
+            s7.solve(other, cfl * 0.37, stop={'maxit': 2})
+            out['other_cfl_first'] = getattr(impl.integ, name)(msh7, disc7).solve(f7, cfl, stop={'maxit': N + M})[-1]
             # intermediate snapshots (dense, including the start time) and monitors
             T = float(a.time)
             ts = sorted([float(f0.time)] + [float(f0.time + x) for x in rng.uniform(0, T - f0.time, 5)] + [T * 1.5])
@@ -96,6 +101,8 @@ def oracle(ctx, seeds=None):
         if a.isnan():
             res.count('skipped-nan'); continue
         tolerant = name in ('implicit', 'cranknicolson', 'gear')   # not relevant for bitwise clauses
+        if not eq(a, out['other_cfl_first']):
+            res.fail(name + ':depends-on-earlier-cfl', "a discretisation that first served a run at another CFL number gives a different result (time %r vs %r)" % (out['other_cfl_first'].time, a.time), rp)
         if not eq(a, out['fresh']):
             res.fail(name + ':fresh-not-identical', "two fresh solver objects give different results", rp)
         if not eq(a, out['repeat_same_obj']):
